@@ -196,8 +196,13 @@ func byNameHandler(args []string) (string, []string) {
 			ps.add("C06", "%s unknown calendar name did not yield an error (A->B %s, A->C %s)", tag, sab, sac)
 		}
 		if kb && kc && ab != nil && ac != nil {
-			ctA, _ := cal_types.GetCalType(a)
-			ctB, _ := cal_types.GetCalType(b)
+			// the per-calendar objects: the entries REGISTERED under these names (registration list),
+			// not whatever the name map currently resolves to
+			ctA, ctB := registeredAs(a), registeredAs(b)
+			if ctA == nil || ctB == nil {
+				ctA, _ = cal_types.GetCalType(a)
+				ctB, _ = cal_types.GetCalType(b)
+			}
 			// dates on which a single calendar fails its own round trip belong to C01
 			okA := ctA.ToJd(d) == jd && sameDate(ctA.JdTo(jd), d)
 			okB := ctB.ToJd(ctB.JdTo(jd)) == jd
@@ -219,6 +224,17 @@ func byNameHandler(args []string) (string, []string) {
 		return fmt.Sprintf("%s %s %s %s %s %s %s", showDate(d), viaJd, saa, sab, sback, sac, sbc), ps.out()
 	}
 	return "bad-request", nil
+}
+
+// the calendar whose own Name() is n, from the registration list
+func registeredAs(n string) cal_types.CalType {
+	var found cal_types.CalType
+	for _, ct := range cal_types.CalTypesList {
+		if ct.Name() == n {
+			found = ct
+		}
+	}
+	return found
 }
 
 // registry / metadata coherence (C20), evaluated on the running registry
